@@ -29,11 +29,11 @@ def strs(s):
 
 def extract(g, X):
     cl = X.cl
-    backend = X.strip_comments(X.read("pdf/src/backend.rs"))
-    xref = X.strip_comments(X.read("pdf/src/xref.rs"))
-    pxr = X.strip_comments(X.read("pdf/src/parser/parse_xref.rs"))
-    lexer = X.strip_comments(X.read("pdf/src/parser/lexer/mod.rs"))
-    objmod = X.strip_comments(X.read("pdf/src/object/mod.rs"))
+    backend = X.source("pdf/src/backend.rs")
+    xref = X.source("pdf/src/xref.rs")
+    pxr = X.source("pdf/src/parser/parse_xref.rs")
+    lexer = X.source("pdf/src/parser/lexer/mod.rs")
+    objmod = X.source("pdf/src/object/mod.rs")
 
     def alias_bits(name):
         if name in BITS:
@@ -52,7 +52,11 @@ def extract(g, X):
         h = X.byte_string("HEADER", b, backend)
         # the search window: min(N, self.len()) in any spelling, used (directly or through a local) as the end of the read
         (w,) = [cap for _, cap in X.min_consts(b, r"self\.len\(\)")]
-        if not re.search(r"\.windows\(\s*HEADER\.len\(\)\s*\)\s*\.position\(\s*\|(\w+)\|\s*\1\s*==\s*HEADER\s*\)", b):
+        # the marker is searched with windows(<marker>.len()).position(|w| w == <marker>) — the marker named or written out
+        H = r'(HEADER|b"(?:\\.|[^"\\])*"|&?\[[^\]]*\])'
+        ms = re.search(r"\.windows\(\s*(?:" + H + r"\.len\(\)|(\d+))\s*\)\s*\.position\(\s*\|(\w+)\|\s*\3\s*==\s*" + H + r"\s*\)", b)
+        wlen = ms and (int(ms.group(2)) if ms.group(2) else len(X.byte_string(ms.group(1), b, backend)))
+        if not ms or wlen != len(h) or X.byte_string(ms.group(4), b, backend) != h:
             raise ValueError("search is no longer windows().position(== HEADER)")
         return cl(h), str(w)
     g.attempt([("xr_header", "list N"), ("xr_header_window", "N")], "backend.rs:locate_start_offset", header)
@@ -117,8 +121,14 @@ def extract(g, X):
         b = X.fn_body(pxr, "read_u64_from_stream")
         (wd,) = X.fn_params(pxr, "read_u64_from_stream")[:1]
         m = re.search(r"if\s+" + wd + r"\s*>\s*(?:(?:std::|core::)?mem::)?size_of::<(\w+)>\(\)", b)
-        i = re.search(r"for\s+(\w+)\s+in\s+\(\s*0\s*\.\.\s*" + wd + r"\s*\)\.rev\(\)", b).group(1)
-        s = re.search(r"(" + B + r")\s*\*\s*" + i + r"\b", b) or re.search(r"\b" + i + r"\s*\*\s*(" + B + r")", b)
+        # big-endian accumulation: a loop with `<< (8 * i)` / `8 * i` per byte, or a fold `(acc << 8) | u64::from(c)`
+        lp = re.search(r"for\s+(\w+)\s+in\s+\(\s*0\s*\.\.\s*" + wd + r"\s*\)\.rev\(\)", b)
+        if lp:
+            i = lp.group(1)
+            s = re.search(r"(" + B + r")\s*\*\s*" + i + r"\b", b) or re.search(r"\b" + i + r"\s*\*\s*(" + B + r")", b)
+        else:
+            s = re.search(r"\.fold\(\s*0\w*\s*,\s*\|\s*(\w+)\s*,\s*&?\s*(\w+)\s*\|\s*\(?\s*\1\s*<<\s*(" + B + r")\s*\)?\s*[|+]\s*u64::from\(\s*\2\s*\)", b)
+            s = s and re.match(r"(\d+)", str(iv(s.group(3))))
         return str(BITS[m.group(1)] // 8), str(iv(s.group(1)))
     g.attempt([("xr_u64_width", "N"), ("xr_byte_bits", "N")], "parse_xref.rs:read_u64_from_stream", width)
 
